@@ -82,7 +82,10 @@ class LoggingPlaceHolder(PlaceHolder):
         return PlaceHolder.run(self, result)
 
 
-class _TC(testtools.TestCase):
+class _TC(unittest.TestCase):
+    """A stdlib TestCase given its id afterwards (as clone_test_with_new_id and scenario multipliers
+    do): such copies have their own ids, yet compare - and hash - equal to one another."""
+
     _vt_id = "a"
 
     def test_x(self):
